@@ -702,7 +702,7 @@ def kwUses : List KwUse := [
   ⟨19, 38, [(181, some 182)], [195, 196, 182, 230, 231, 232], []⟩,
   ⟨19, 0, [(181, some 182)], [195, 196, 182, 230, 231, 232], []⟩,
   ⟨19, 114, [(181, some 182), (233, some 234)], [195, 235, 196, 182, 230, 231, 232, 236, 234, 237], []⟩,
-  ⟨19, 115, [(181, some 182)], [195, 196, 235, 182, 236, 234], []⟩,
+  ⟨19, 115, [(181, some 182), (233, some 234)], [195, 196, 235, 182, 236, 234], []⟩,
   ⟨19, 0, [(181, some 182)], [195, 196, 182], []⟩,
   ⟨103, 0, [(238, some 239), (240, some 241)], [195, 241, 239, 203], []⟩,
   ⟨103, 86, [(242, some 243)], [195, 243], []⟩,
